@@ -1,6 +1,7 @@
 """Per-property configuration of the checks: families, builds, run counts, evidence rules."""
 import c07, c13
 ALL = ['REL', 'SEC', 'DBG']
+ALLU = ['REL', 'SEC', 'DBG', 'UBS']     # plus the build in which undefined behaviour traps (arithmetic-heavy families)
 
 COMPONENTS = {
   'real': 'all of /repo/src compiled from the working tree through src/static.c (alloc, alloc-aligned, alloc-posix, free, page, page-queue, segment, segment-map, arena, arena-abandon, bitmap, heap, init, os, options, stats, libc, random, prim/unix/prim.c), hardware atomics, real pthreads (parked/released by the scheduler)',
@@ -8,7 +9,7 @@ COMPONENTS = {
 }
 ASSUMPTIONS = [
   'executions are sequentially consistent interleavings at the granularity of mimalloc atomic operations; weaker memory-order effects and races on non-atomic fields are not explored',
-  'Linux/unix primitive layer only; MI_GUARDED, MI_TRACK_*, C++ builds and large/huge OS pages are not covered',
+  'Linux/unix primitive layer only; MI_GUARDED, MI_TRACK_*, C++ builds and large/huge OS pages (MAP_HUGETLB always fails in the simulated OS) are not covered',
   'sampling: a clean batch is evidence for the explored (configuration, plan, schedule, fault) tuples only',
 ]
 
@@ -16,7 +17,7 @@ def sw(r, *names): return sum(r.get('probes', {}).get(n, 0) for n in names)
 
 PROPS = {
  'C01': {
-   'families': [('c01_random', 5, ALL), ('c01_pagecycle', 2, ALL), ('c01_spanchurn', 2, ALL), ('c01_huge', 1.5, ALL), ('c01_zerosize', 0.5, ALL)],
+   'families': [('c01_random', 5, ALLU), ('c01_pagecycle', 2, ALLU), ('c01_spanchurn', 2, ALLU), ('c01_huge', 1.5, ALLU), ('c01_zerosize', 0.5, ALL)],
    'runs': {'quick': 3000, 'thorough': 150000},
    'rule': 'plans are generated from hash(VERIF_SEED, family, i); a run is non-trivial if it executed >= 20 allocation calls and >= 5 frees; distinct = distinct hash of all API results (addresses, sizes)',
    'nontrivial': lambda r: r.get('allocs', 0) >= 20 and r.get('frees', 0) >= 5, 'distinct_by': 'api+sched',
@@ -36,7 +37,7 @@ PROPS = {
    'must_reach': ['switch_in_free_mt', 'switch_in_delayed_partial', 'delayed_freeing_observed'],
  },
  'C09': {
-   'families': [('c09_exit', 5, ALL), ('c09_adopt_race', 3, ALL), ('c09_userheap_adopter', 2, ALL), ('c12_bigarena', 0.3, ALL)],
+   'families': [('c09_exit', 5, ALL), ('c09_adopt_race', 3, ALL), ('c09_userheap_adopter', 2, ALL), ('c12_bigarena', 0.3, ALLU)],
    'runs': {'quick': 1500, 'thorough': 100000},
    'rule': 'non-trivial = at least one segment was abandoned and one reclaimed in the run; distinct = distinct (API hash, hot-switch signature)',
    'nontrivial': lambda r: sw(r, 'segment_abandoned') > 0 and sw(r, 'segment_reclaimed') > 0,
@@ -64,33 +65,33 @@ PROPS = {
    'must_reach': ['segment_purge_by_time'],
  },
  'C03': {
-   'families': [('c03_align', 1, ALL)],
+   'families': [('c03_align', 1, ALLU)],
    'runs': {'quick': 2400, 'thorough': 150000},
    'rule': 'each run executes 6-30 (size, alignment, offset) triples against warmed-up heap states, each followed by expand / realloc(_aligned(_at)) / free variants; non-trivial = at least 5 aligned allocations succeeded and one was resized; distinct = distinct API result hash',
    'nontrivial': lambda r: r.get('allocs', 0) >= 5 and r.get('reallocs', 0) >= 1,
  },
  'C04': {
-   'families': [('c04_dirty', 3, ALL), ('c04_grow', 2, ALL), ('c04_hugeslack', 0.4, ALL)],
+   'families': [('c04_dirty', 3, ALLU), ('c04_grow', 2, ALLU), ('c04_hugeslack', 0.4, ALLU)],
    'runs': {'quick': 2400, 'thorough': 120000},
    'rule': 'non-trivial = at least one zero obligation was checked (zeroing allocation over previously dirtied memory, or a growth step of a zero-initialised block); distinct = distinct API result hash',
    'nontrivial': lambda r: sw(r, 'zero_checked') > 0,
    'must_reach': ['zero_checked', 'realloc_inplace', 'realloc_moved', 'segment_reclaimed', 'heap_destroy'],
  },
  'C05': {
-   'families': [('c05_realloc', 2, ALL), ('c05_pagecycle', 1, ALL)],
+   'families': [('c05_realloc', 2, ALLU), ('c05_pagecycle', 1, ALLU)],
    'runs': {'quick': 2400, 'thorough': 150000},
    'rule': 'non-trivial = at least 5 realloc-family calls, with both in-place and moving outcomes counted as probes; distinct = distinct API result hash',
    'nontrivial': lambda r: r.get('reallocs', 0) >= 5,
    'must_reach': ['realloc_inplace', 'realloc_moved', 'alloc_null', 'os_refused'],
  },
  'C06': {
-   'families': [('c06_badreq', 3, ALL), ('c06_wellformed', 1, ALL)],
+   'families': [('c06_badreq', 3, ALLU), ('c06_wellformed', 1, ALLU)],
    'runs': {'quick': 2000, 'thorough': 100000},
    'rule': 'malformed requests (30 kinds: overflowing count*size, > PTRDIFF_MAX, alignment 0 / not a power of two / not a pointer multiple, page rounding overflow, through malloc/calloc/aligned/posix/realloc families) are issued in the middle of populated histories; the converse family issues well-formed requests up to 256 MiB / alignment 256 MiB with no OS refusal; non-trivial = run executed >= 10 operations; distinct = distinct API result hash',
    'nontrivial': lambda r: r.get('ops', 0) >= 10,
  },
  'C12': {
-   'families': [('c12_holes', 3, ALL), ('c12_remote', 1, ALL), ('c09_exit', 1, ALL), ('c12_bigarena', 0.3, ALL)],
+   'families': [('c12_holes', 3, ALLU), ('c12_remote', 1, ALL), ('c09_exit', 1, ALL), ('c12_bigarena', 0.3, ALLU)],
    'runs': {'quick': 2400, 'thorough': 150000},
    'rule': 'non-trivial = at least one heap walk was compared block-by-block with the shadow heap; distinct = distinct API result hash (and schedule signature for the multi-threaded families)',
    'nontrivial': lambda r: sw(r, 'visit_checked') > 0,
@@ -108,7 +109,7 @@ PROPS = {
    'must_reach': ['os_refused', 'alloc_null'],
  },
  'C14': {
-   'families': [('c14_arena', 1, ALL)],
+   'families': [('c14_arena', 1, ALLU)],
    'runs': {'quick': 900, 'thorough': 60000},
    'rule': 'dedicated exclusive arena of 40/66/70/130 blocks (claims cross bitmap words), 2-4 threads with arena-bound heaps allocating 1-, 2- and 3..7-block objects with purge delays and clock advances; at quiescence the arena must be completely allocatable again; non-trivial = a context switch inside the bitmap functions; distinct = distinct (API hash, hot-switch signature)',
    'nontrivial': lambda r: sw(r, 'switch_in_bitmap') > 0,
